@@ -574,6 +574,9 @@ func callSSA(i *interpreter, caller *frame, callpos token.Pos, fn *ssa.Function,
 			}
 			return ext(fr, args)
 		}
+		if fn.Name() == "init" && fn.Pkg != nil && (!i.interpret(fn.Pkg.Pkg.Path()) || skipInit[fn.Pkg.Pkg.Path()]) {
+			return nil // initialisers of packages outside the interpreted set are not run
+		}
 		if fn.Blocks == nil {
 			unsupported("no Go body and no model for %s", name)
 		}
